@@ -17,9 +17,15 @@ def generate(rng, tier):
     n = {'quick': 400, 'thorough': 10000, 'search': 300}[tier]
     cases = []
     for _ in range(n):
-        plain = rng.random() < 0.25
+        cases.append(gen_case(rng, len(cases)))
+    return cases
+
+
+def gen_case(rng, index=0, plain=None):
+    if True:
+        plain = (rng.random() < 0.25) if plain is None else plain
         g = muxgen.Gen(rng, heads=not plain, plain_ok=plain, max_depth=3)
-        g.no_early = plain and len(cases) % 2 == 0     # inside the timed plain model of tee_map (no take/first)
+        g.no_early = plain and index % 2 == 0     # inside the timed plain model of tee_map (no take/first)
         nb = rng.choice([1, 2, 2, 3, 3, 4])
         brs = []
         for _ in range(nb):
@@ -32,8 +38,7 @@ def generate(rng, tier):
         ast = {'group': [['group', ['mod', 2], core]], 'roll': [['roll', rng.randint(1, 4), rng.randint(1, 3), core]],
                'split': [['split', ['floordiv', 4], core]]}.get(ctx, core)
         trace = muxgen.gen_trace(rng, muxgen.INT, nkeys=rng.choice([1, 2, 3]))
-        cases.append({'ast': ast, 'trace': trace, 'mode': mode, 'branches': brs, 'ctx': ctx})
-    return cases
+        return {'ast': ast, 'trace': trace, 'mode': mode, 'branches': brs, 'ctx': ctx}
 
 
 def run_impl(case):
